@@ -30,6 +30,11 @@ func VerifBufSched() {
 		vGo("reader", func() {
 			buf := make([]byte, 128)
 			n, err := b.Read(buf)
+			if err == io.EOF {
+				// no Write succeeds after Close, so the occupancy can only go down from here: a
+				// packet buffered now was there when this Read decided to report end-of-file
+				vAssert(b.count == 0, "C08: end-of-file is reported only once the buffered packets have been taken")
+			}
 			rn[r], rerr[r], rdone[r] = n, err, true
 		})
 	}
